@@ -74,6 +74,10 @@ def corpus():
                 "ts": None, "tc": None})                                                                                              # blank values where the template has defaults
     out.append({"src": [[["OFFSET", "0"], ["BPMS", "0.000=120.000"], ["STOPS", ""]], [["a", "b", "c", "1", "0", "0000", []]]],
                 "ts": {"props": "blank", "extra": [], "charts": 2}, "tc": None})                                                     # template with charts
+    out.append({"src": [[["OFFSET", "0"], ["BPMS", "0.000=120.000"], ["STOPS", ""]], [["dance-single", "b", "Easy", "1", "0,0", "0000\n1000", []]]],
+                "ts": None, "tc": {"extra": [], "empty": False, "notes2": False, "partial": True}})        # F12: chart template lacking copied fields; NOTES must stay last
+    out.append({"src": [[["OFFSET", "0"], ["BPMS", "0.000=120.000"], ["STOPS", ""]], [["dance-single", "b", "Easy", "1", "0,0", "0000", []]]],
+                "ts": {"props": "partial", "extra": [], "charts": 1}, "tc": {"extra": [["CREDIT", "c"]], "empty": False, "notes2": False, "partial": True}})
     return out
 
 
